@@ -1,0 +1,81 @@
+//go:build verif
+
+// Copyright 2026 The Scriggo Authors. All rights reserved.
+// Use of this source code is governed by a BSD-style
+// license that can be found in the LICENSE file.
+
+package compiler
+
+import (
+	"github.com/open2b/scriggo/ast"
+)
+
+// VerifC04Token is one token as emitted by the lexer, for the verification
+// harness of properties C04 and C21. It adds no behaviour.
+type VerifC04Token struct {
+	Typ    int // tokenTyp
+	Start  int
+	End    int
+	Line   int
+	Column int
+	Ctx    int // ast.Context
+	Tag    string
+	Att    string
+	Lin    int // line of the lexer when the token was emitted
+	TxtLen int
+}
+
+// VerifC04Error is the lexer's error, if any.
+type VerifC04Error struct {
+	Msg    string
+	Start  int
+	End    int
+	Line   int
+	Column int
+}
+
+// VerifC04Scan runs the lexer (scanProgram if program is true, scanTemplate
+// otherwise) on src and returns every token it emits and its error.
+//
+// The lexer runs in its own goroutine: if it panics the process dies.
+func VerifC04Scan(src []byte, format int, program, noParseShow bool) ([]VerifC04Token, *VerifC04Error) {
+	var lex *lexer
+	if program {
+		lex = scanProgram(src)
+	} else {
+		lex = scanTemplate(src, ast.Format(format), noParseShow)
+	}
+	var toks []VerifC04Token
+	for tok := range lex.Tokens() {
+		toks = append(toks, VerifC04Token{
+			Typ:    int(tok.typ),
+			Start:  tok.pos.Start,
+			End:    tok.pos.End,
+			Line:   tok.pos.Line,
+			Column: tok.pos.Column,
+			Ctx:    int(tok.ctx),
+			Tag:    tok.tag,
+			Att:    tok.att,
+			Lin:    tok.lin,
+			TxtLen: len(tok.txt),
+		})
+	}
+	if err := lex.error(); err != nil {
+		e := &VerifC04Error{Msg: err.Error()}
+		if se, ok := err.(*SyntaxError); ok {
+			e.Msg = se.msg
+			e.Start, e.End, e.Line, e.Column = se.pos.Start, se.pos.End, se.pos.Line, se.pos.Column
+		}
+		return toks, e
+	}
+	return toks, nil
+}
+
+// VerifC04TokenNames returns the name of every token type, indexed by type.
+func VerifC04TokenNames() []string {
+	names := make([]string, int(tokenUsing)+1)
+	for i := range names {
+		names[i] = tokenString[tokenTyp(i)]
+	}
+	return names
+}
